@@ -159,11 +159,22 @@ def cigar_contract(seqs, trace, opts):
     tr = np.array(trace)
     if not np.any((tr[:, 0] != -1) & (tr[:, 1] != -1)):
         return None
-    cig = align.write_alignment_to_cigar(ali, **opts)
-    # position of the first aligned reference base
-    both = np.where(tr[:, 0] != -1)[0]
     seg_cols = np.where(tr[:, 1] != -1)[0]
     inner = tr[seg_cols[0]: seg_cols[-1] + 1]
+    if opts.get("introns") == "auto":
+        # the first run of reference positions facing gaps in the segment is declared an intron
+        dele = [int(r) for r, q in inner if q == -1 and r != -1]
+        if not dele:
+            return None
+        stop = dele[0]
+        while stop + 1 in dele:
+            stop += 1
+        opts = dict(opts, introns=[(dele[0], stop + 1)])
+    cig = align.write_alignment_to_cigar(ali, **opts)
+    if opts.get("introns") and "N" not in cig:
+        return f"introns {opts['introns']} not reflected by 'N' in the CIGAR string {cig!r}"
+    # position of the first aligned reference base
+    both = np.where(tr[:, 0] != -1)[0]
     ref_idx = inner[:, 0][inner[:, 0] != -1]
     if len(ref_idx) == 0:
         return None
@@ -197,7 +208,8 @@ for a, b in pairs:
             for term in (True, False):
                 R.check("score() == column-wise recomputation", f"score gap={gap} terminal={term}", dict(desc, gap=gap, terminal=term),
                         lambda seqs=seqs, trace=trace, gap=gap, term=term: score_contract(seqs, trace, gap, term))
-        for opts in ({}, {"distinguish_matches": True}, {"hard_clip": True}, {"include_terminal_gaps": True}):
+        for opts in ({}, {"distinguish_matches": True}, {"hard_clip": True}, {"include_terminal_gaps": True}, {"introns": "auto"},
+                     {"introns": "auto", "distinguish_matches": True}):
             R.check("CIGAR write/read recovers the trace", f"cigar {sorted(opts)}", dict(desc, opts=opts),
                     lambda seqs=seqs, trace=trace, opts=opts: cigar_contract(seqs, trace, opts))
 
